@@ -96,7 +96,7 @@ func startTagLines(src, tag string, occurrence int) (int, int) {
 }
 
 func runC17(res *Result, tier string, seed int64, replay string) {
-	res.Rule = "(1) EXHAUSTIVE matrix: every body component in a legal context × every attribute name from the union of all known names + invented ones (bogus, data-x, aria-y, class, css-class, mj-class, empty-looking names): error reported ⇔ the Spec (JSON table + always-accepted names) rejects, exactly one detail for the offending (tag, attribute), nothing else; HTML equal to the HTML of the same document without the attribute when the attribute is invalid. (2) seeded grammar documents with 1–4 invalid attributes injected at random elements, multi-line start tags, documents preceded by comments and blank lines: every reported line must lie within the lines of that element's start tag in the ORIGINAL input; details = injected set. (3) line lookup: real lineLookup (verif export) vs 1 + count of newlines, offsets queried in random order. Non-trivial = cell or document with an offending attribute; distinct by cell / source"
+	res.Rule = "(1) EXHAUSTIVE matrix: every body component in a legal context × every attribute name from the union of all known names + invented ones (bogus, data-x, aria-y, class, css-class, mj-class, empty-looking names): error reported ⇔ the Spec (JSON table + always-accepted names) rejects, exactly one detail for the offending (tag, attribute), nothing else; HTML equal to the HTML of the same document without the attribute when the attribute is invalid. (2) seeded grammar documents with 1–4 invalid attributes injected at random elements, multi-line start tags, void HTML tags inside mj-text written over several lines, documents preceded by comments and blank lines: every reported line must lie within the lines of that element's start tag in the ORIGINAL input; details = injected set. (3) line lookup: real lineLookup (verif export) vs 1 + count of newlines, offsets queried in random order. Non-trivial = cell or document with an offending attribute; distinct by cell / source"
 	// ---- (1) matrix
 	names := map[string]bool{}
 	for _, t := range bodyTags {
@@ -220,6 +220,12 @@ func runC17(res *Result, tier string, seed int64, replay string) {
 			if r.Bool(1, 2) {
 				body = strings.Replace(body, ` bogus="v"`, nl+`      bogus="v"`, -1)
 				body = strings.Replace(body, ` foo-bar="v"`, nl+nl+`  foo-bar="v"`, -1)
+			}
+			// void HTML tags inside mj-text written over several lines (the parser's textual pre-pass rewrites them): the lines of
+			// everything that follows must not move
+			if r.Bool(1, 2) {
+				body = strings.Replace(body, "<br/>", "<br"+nl+"/>", -1)
+				body = strings.Replace(body, "</mj-text>", `<img src="i.png"`+nl+`   alt="a"`+nl+`/><hr`+nl+nl+`/></mj-text>`, 1+r.Intn(2))
 			}
 			pre := r.Pick([]string{"", "", "<!-- leading comment -->\n", "\n\n\n", "<!-- a -->\n<!-- b\n c -->\n\n", "  \n<!-- x -->", "<?xml version=\"1.0\"?>\n"})
 			src = pre + body
